@@ -76,7 +76,8 @@ def ops(root, tier):
 
 def enabled(root, h, op):
     def written(f):
-        return any((o[0] in ("save", "savef") and o[2] == f) or (o[0] == "saver" and f == 0) for o in h)
+        return any((o[0] in ("save", "savef") and o[2] == f) or (o[0] == "saver" and f == 0)
+                   or (o[0] == "badkey" and f == 0 and root["kind"] == "positive" and o[2] != "rbm_am") for o in h)
     if op[0] in ("load", "loadf"):
         return written(op[2])
     if op[0] == "autoload":
@@ -122,7 +123,11 @@ def has_ud(m):
 
 def abs_model(m):
     nets = tuple((net, tuple((n, H(p)) for n, p in getattr(m, net).named_parameters())) for net in m.networks)
-    ud = tuple(sorted((k, H(v)) for k, v in m.unitary_dict.items())) if has_ud(m) else None
+    if has_ud(m):
+        udv = m.__dict__["unitary_dict"]
+        ud = tuple(sorted((k, H(v)) for k, v in udv.items())) if isinstance(udv, dict) else ("not-a-dictionary", repr(type(udv)))
+    else:
+        ud = None
     arch = (m.num_visible, m.num_hidden, getattr(m, "num_aux", None) if "num_aux" in m.__dict__ else None)
     return (nets, ud, arch)
 
@@ -136,8 +141,10 @@ def abs_file(path, networks):
         return ("unreadable", type(e).__name__, os.path.getsize(path))
     try:
         nets = tuple((net, tuple((n, H(p)) for n, p in sd[net].items())) for net in networks if net in sd)
-        ud = tuple(sorted((k, H(v)) for k, v in sd["unitary_dict"].items())) if "unitary_dict" in sd else None
-        md = canon({k: v for k, v in sd.items() if k not in networks and k != "unitary_dict"})
+        udv = sd.get("unitary_dict")
+        is_ud = isinstance(udv, dict) and len(udv) > 0 and all(isinstance(v, torch.Tensor) for v in udv.values())
+        ud = tuple(sorted((k, H(v)) for k, v in udv.items())) if is_ud else None
+        md = canon({k: v for k, v in sd.items() if k not in networks and not (k == "unitary_dict" and is_ud)})
     except Exception as e:  # noqa: BLE001  (a checkpoint whose network / dictionary entries are not what the library writes)
         return ("malformed", type(e).__name__, sorted(map(str, sd.keys())) if isinstance(sd, dict) else repr(type(sd)))
     return (nets, ud, md)
@@ -288,6 +295,7 @@ class World:
                 # a reserved NAME is refused whatever value comes with it (truthy, falsy, alone or among other entries)
                 for vn, val in (("1", 1), ("None", None), ("0", 0), ("empty-str", ""), ("empty-dict", {}), ("empty-list", []), ("zero-tensor", torch.tensor(0.0)), ("with-others", 1)):
                     md_ = {key: val} if vn != "with-others" else {"note": "x", key: val, "z": 2}
+                    keys_ = list(md_.keys())
                     try:
                         self.M[0].save(self.F[0], md_)
                         out.append(("roundtrip:reserved-metadata-key-accepted", dict(key=key, value=vn)))
@@ -298,6 +306,20 @@ class World:
                     except Exception as e:  # noqa: BLE001
                         out.append((f"roundtrip:reserved-key-raised-{type(e).__name__}", dict(key=key, value=vn)))
                         break
+                    if list(md_.keys()) != keys_:
+                        # a refused call must leave the caller's metadata object as it was (it will be corrected and re-used)
+                        out.append(("roundtrip:refused-save-changed-the-metadata-object", dict(key=key, value=vn, keys_after=list(map(str, md_.keys())))))
+                        break
+            else:
+                # the name is NOT reserved for this state type (a PositiveWaveFunction has no phase network and no
+                # unitary dictionary): it is ordinary caller metadata and round-trips like any other entry
+                md_ = {key: 7, "note": "x"}
+                try:
+                    call(self.M[0].save, self.F[0], md_)
+                    a_ = abs_model(self.M[0])
+                    self.refF[0] = (a_[0], a_[1], canon(md_))
+                except LibRaised as e:
+                    out.append((f"roundtrip:unreserved-name-refused:{e.kind}", dict(key=key)))
         else:
             raise EngineError(f"unknown op {op}")
         if check:
